@@ -157,6 +157,59 @@ def subst(path, recv_path, arg_paths):
     return None  # callee local
 
 
+def _local_guard(f, env):
+    """does guard fact f depend on a local that is not an alias of a member path?"""
+    for d in f[3]:
+        if d[0] == "v":
+            a = env.alias.get(d[1])
+            if a is None or a[0][0] != "this":
+                if d[1] in env.param_index:
+                    return True
+                return True
+    return False
+
+
+def _const_eval(e, pconst):
+    """integer value of an expression over bound parameters and literals, or None"""
+    if not is_node(e):
+        return None
+    k = e["k"]
+    if k == "Ref":
+        if e.get("id") in pconst:
+            return pconst[e["id"]]
+        return e.get("val")
+    if e.get("val") is not None and k in ("Lit", "Sizeof"):
+        return e["val"]
+    if k == "Cast":
+        return _const_eval(e["e"], pconst)
+    if k == "Unary" and e["op"] == "!":
+        v = _const_eval(e["e"], pconst)
+        return None if v is None else (0 if v else 1)
+    if k == "Binary":
+        a, b = _const_eval(e["l"], pconst), _const_eval(e["r"], pconst)
+        op = e["op"]
+        if op == "&&":
+            if a is not None and not a:
+                return 0
+            if b is not None and not b:
+                return 0
+            return 1 if (a is not None and b is not None) else None
+        if op == "||":
+            if a is not None and a:
+                return 1
+            if b is not None and b:
+                return 1
+            return 0 if (a is not None and b is not None) else None
+        if a is None or b is None:
+            return None
+        try:
+            return int({"==": a == b, "!=": a != b, "<": a < b, ">": a > b, "<=": a <= b, ">=": a >= b}[op]) \
+                if op in ("==", "!=", "<", ">", "<=", ">=") else {"+": a + b, "-": a - b, "*": a * b}.get(op)
+        except Exception:
+            return None
+    return None
+
+
 class Event:
     __slots__ = ("path", "kind", "info", "guards", "chain", "loops")
 
@@ -198,24 +251,41 @@ class Summarizer:
             self.envs[fn["id"]] = e
         return e
 
-    def events(self, fid, depth=0):
-        if fid in self.memo:
-            return self.memo[fid]
+    def events(self, fid, depth=0, consts=None):
+        """consts: {parameter index: integer constant} bound at the call site (context-sensitive for constant
+        arguments, so `Read(stream, 4)` only keeps the 4-byte-length branch)"""
+        key = fid if not consts else (fid, tuple(sorted(consts.items())))
+        if key in self.memo:
+            return self.memo[key]
         fn = self.F.fns.get(fid)
-        if fn is None or fid in self.active or depth > self.max_depth:
+        if fn is None or key in self.active or depth > self.max_depth:
             return []
-        self.active.add(fid)
+        self.active.add(key)
         try:
-            out = self._events(fn, depth)
+            out = self._events(fn, depth, consts or {})
         finally:
-            self.active.discard(fid)
-        self.memo[fid] = out
+            self.active.discard(key)
+        self.memo[key] = out
         return out
 
-    def _events(self, fn, depth):
+    def _events(self, fn, depth, consts=None):
         env = self.env(fn)
         kinds = self.kinds
-        col = flow.Collect(self.F, fn, lambda n: n["k"] in kinds or n["k"] in ("Assign", "Unary"), mode=self.mode)
+        pconst = {}
+        for i, v in (consts or {}).items():
+            if i < len(fn.get("params", [])):
+                pconst[fn["params"][i]["id"]] = v
+
+        class C(flow.Collect):
+            def const_cond(self, e):
+                r = flow.Collect.const_cond(self, e)
+                if r is not None or not pconst:
+                    return r
+                v = _const_eval(e, pconst)
+                return None if v is None else bool(v)
+
+        col = C(self.F, fn, lambda n: n["k"] in kinds or n["k"] in ("Assign", "Unary"), mode=self.mode)
+        col.partition = False  # one state per node: summaries list every event once
         if self.value_proxies:
             import facts as _facts
             saved = _facts.SHOW_ALIAS
@@ -235,13 +305,17 @@ class Summarizer:
                     if is_node(i) and i["k"] == "Lambda" and i.get("fid"):
                         lambdas[v["id"]] = i["fid"]
         for n, st in col.at:
-            g = tuple(flow.guards(st))
+            g = tuple(sorted((f[1], f[2], _local_guard(f, env)) for f in (st or ()) if f[0] == "G"))
+            ms = st is not None and ("D", "mode-split") in st
             lp = col.loops_at.get(id(n), ())
             site = ((fn["id"], n.get("loc", "")),)
             prim = self.primitive(n, env, fn, st)
             if prim is not None:
                 for ev in prim:
-                    out.append(Event(ev.path, ev.kind, ev.info, g + ev.guards, site + ev.chain, lp + ev.loops))
+                    info = ev.info
+                    if ms and not info.get("modesplit"):
+                        info = dict(info, modesplit=fn["name"])
+                    out.append(Event(ev.path, ev.kind, info, g + ev.guards, site + ev.chain, lp + ev.loops))
                 continue
             if n["k"] not in ("Call", "OpCall", "Construct"):
                 continue
@@ -271,7 +345,13 @@ class Summarizer:
                     continue
                 callee = self.F.fns[t]
                 cenv_is_lambda = bool(callee.get("lambda_parent"))
-                for ev in self.events(t, depth + 1):
+                cc = {}
+                for ai, a in enumerate(args):
+                    if is_node(a) and a.get("val") is not None and a["k"] in ("Lit", "Ref", "Cast", "Sizeof", "Binary", "Unary"):
+                        cc[ai] = a["val"]
+                    elif is_node(a) and a["k"] == "Ref" and a.get("id") in pconst:
+                        cc[ai] = pconst[a["id"]]
+                for ev in self.events(t, depth + 1, cc):
                     if cenv_is_lambda and ev.path is not None and ev.path[0][0] in ("this", "$v"):
                         # lambda bodies see the enclosing frame directly ([&] / [this] captures)
                         np = self._lambda_path(ev.path, env)
@@ -279,7 +359,10 @@ class Summarizer:
                         np = subst(ev.path, rp, aps)
                     if np is None and ev.path is not None:
                         np = (("$lost", render(ev.path)),)
-                    out.append(Event(np, ev.kind, ev.info, g + ev.guards, site + ev.chain, lp + ev.loops))
+                    info = ev.info
+                    if ms and not info.get("modesplit"):
+                        info = dict(info, modesplit=fn["name"])
+                    out.append(Event(np, ev.kind, info, g + ev.guards, site + ev.chain, lp + ev.loops))
         return out
 
     def _lambda_path(self, p, env):
